@@ -34,7 +34,12 @@ def _childpriv(c, priv, cc, depth, idx):
 
 def _nodepath(c, priv, cc, depth, idx, fp, path):
     kd = Bip32KeyData(Bip32Depth(int(depth)), Bip32KeyIndex(int(idx)), Bip32ChainCode(unhx(cc)), Bip32FingerPrint(unhx(fp)))
-    return node_out(CLS[c].FromPrivateKey(unhx(priv), kd).DerivePath(untx(path)))
+    from harness.canon import routes
+    from bip_utils import Bip32PathParser
+    mk = lambda: CLS[c].FromPrivateKey(unhx(priv), kd)    # noqa: E731
+    # the path as text and as a parsed path object (both documented argument types) must be treated alike, absolute-path refusal included
+    return routes("DerivePath", [("str", lambda: node_out(mk().DerivePath(untx(path)))),
+                                 ("Bip32Path object", lambda: node_out(mk().DerivePath(Bip32PathParser.Parse(untx(path)))))])
 
 
 def _childpub(c, pub, cc, depth, idx):
